@@ -494,7 +494,7 @@ pub fn run_c01(run: &mut PropRun) {
 
 pub fn run_c02(run: &mut PropRun) {
     run.rule = "proptest-generated strongly primal-infeasible (planted z in int K*, A'z=0, b'z=-1) and strongly dual-infeasible (planted x: Px=0, Ax+s=0, s in int K, q'x=-1) problems over all cone types, with random rescalings, plus feasible controls, x random settings. Oracle: z in K*, b'z<0 (resp. s in K, q'x<0), NaN objectives, and the documented scale-dependent test re-evaluated on the user's data with kappa from the observer and c from data.equilibration. non-trivial = status Primal/DualInfeasible".into();
-    run.assumptions = vec![BLAS_NOTE.into(), "kappa before normalisation is read from the per-iteration observer hook".into(), "solves whose observed iterates leave [1e-150, 1e150] (squares overflow / underflow in plain double arithmetic: norms, cone margins and step lengths become inf, NaN or 0 by construction) are labelled not-judged and counted; what the solver reports about such an iterate is outside the judged domain".into()];
+    run.assumptions = vec![BLAS_NOTE.into(), "kappa before normalisation is read from the per-iteration observer hook".into(), "solves whose observed iterates leave [1e-100, 1e100] (squares, and products with data entries, overflow / underflow in plain double arithmetic: norms, cone margins and step lengths become inf, NaN or 0 by construction) are labelled not-judged and counted; what the solver reports about such an iterate is outside the judged domain".into()];
     run.replay_dir::<SolveCase>("infeasible", &check_c02);
     let small = cfg_for(run, false);
     let large = cfg_for(run, true);
@@ -504,7 +504,7 @@ pub fn run_c02(run: &mut PropRun) {
 
 pub fn run_c03(run: &mut PropRun) {
     run.rule = "feasible/infeasible/badly scaled problems x stress settings (max_iter 0..8, time_limit 0/tiny, unreachable tolerances, regularisation+refinement off, large min_terminate_step_length) chosen to reach every terminal status. Oracle: obj_val, obj_val_dual, r_prim, r_dual recomputed from returned x,s,z and the user's data; status/iterations/solve_time agree between solution and info; Almost* statuses re-tested against the reduced tolerances; lengths equal user's n,m. non-trivial = every solved case (any terminal status); see labels for the status histogram".into();
-    run.assumptions = vec![BLAS_NOTE.into(), "objective agreement 1e-9*sum|terms|; residual figures 1e-6 relative + 1e3 eps*scale".into(), "solves whose observed iterates leave [1e-150, 1e150] (squares overflow / underflow in plain double arithmetic: norms, cone margins and step lengths become inf, NaN or 0 by construction) are labelled not-judged and counted; what the solver reports about such an iterate is outside the judged domain".into()];
+    run.assumptions = vec![BLAS_NOTE.into(), "objective agreement 1e-9*sum|terms|; residual figures 1e-6 relative + 1e3 eps*scale".into(), "solves whose observed iterates leave [1e-100, 1e100] (squares, and products with data entries, overflow / underflow in plain double arithmetic: norms, cone margins and step lengths become inf, NaN or 0 by construction) are labelled not-judged and counted; what the solver reports about such an iterate is outside the judged domain".into()];
     run.replay_dir::<SolveCase>("report", &check_c03);
     let small = cfg_for(run, false);
     let large = cfg_for(run, true);
